@@ -70,22 +70,48 @@ def hash_seed(seed, shard):
     return str((seed * 7 + shard) % 6)
 
 
-def run_workers(prop, tier, seed, nshards, repo, timeout, outdir, replay=None):
+def interpreter_optimize(seed, shard):
+    return (shard + seed) % 2
+
+
+def run_workers(prop, tier, seed, nshards, repo, timeout, outdir, replay=None, extra_env=None, only_shards=None):
     procs = []
     for sh in range(nshards):
+        if only_shards is not None and sh not in only_shards:
+            continue
         env = worker_env(repo)
         env["PYTHONHASHSEED"] = hash_seed(seed, sh)
+        # CONFIGURATION dimension: one shard in four sees an OpenSSL that does not offer RIPEMD-160 to hashlib
+        if (sh + seed) % 4 == 2:
+            env["VP_NO_OSSL_RIPEMD"] = "1"
+        if extra_env:
+            env.update(extra_env)
+            env["VP_EXTRA_ENV"] = json.dumps(extra_env, sort_keys=True)
         if replay:
             try:
                 v = json.load(open(replay))
                 env["PYTHONHASHSEED"] = hash_seed(int(v.get("seed", 0)), int(v.get("shard", 0)))
+                env.pop("VP_NO_OSSL_RIPEMD", None)
+                if v.get("no_ossl_ripemd"):
+                    env["VP_NO_OSSL_RIPEMD"] = "1"
+                if v.get("extra_env"):
+                    env.update(json.loads(v["extra_env"]))
+                    env["VP_EXTRA_ENV"] = v["extra_env"]
             except Exception:  # noqa
                 pass
         out = os.path.join(outdir, "shard%02d.json" % sh)
         if os.path.exists(out):
             os.remove(out)
-        cmd = [PY, "-m", "vpkg.worker", prop, "--tier", tier, "--seed", str(seed),
-               "--shard", str(sh), "--nshards", str(nshards), "--out", out]
+        # CONFIGURATION dimension: odd shards run the interpreter with assertions stripped (python -O, what PYTHONOPTIMIZE=1
+        # gives a container image): validation written as `assert`, or work done inside an assert, is gone there
+        optimize = interpreter_optimize(seed, sh)
+        if replay:
+            try:
+                optimize = int(json.load(open(replay)).get("optimize", 0))
+            except Exception:  # noqa
+                optimize = 0
+        cmd = [PY] + (["-O"] if optimize else []) + ["-m", "vpkg.worker", prop, "--tier", tier, "--seed", str(seed),
+                                                      "--shard", str(sh), "--nshards", str(nshards), "--out", out]
         if replay:
             cmd += ["--replay", replay]
         log = open(os.path.join(outdir, "shard%02d.log" % sh), "w")
@@ -206,6 +232,21 @@ def main(argv=None):
     os.makedirs(outdir, exist_ok=True)
     timeout = mod.TIMEOUT.get(tier, 1800) if hasattr(mod, "TIMEOUT") else (900 if tier == "quick" else 7200)
     results, problems = run_workers(prop, tier, a.seed, nshards, a.repo, timeout, outdir, replay=a.replay)
+    # ENVIRONMENT dimension: every environment variable the repository's own code was seen looking up (worker.EnvTaint) is a
+    # configuration input; two shards are run again with each such variable set
+    if not a.replay:
+        looked_up = []
+        for r in results:
+            for name in r.get("extra", {}).get("environment_variables_looked_up_by_repo_code", []):
+                if name not in looked_up:
+                    looked_up.append(name)
+        for ni, name in enumerate(looked_up[:4]):
+            for vi, val in enumerate(("1", "true")):
+                sub = os.path.join(outdir, "env-%d-%d" % (ni, vi))
+                os.makedirs(sub, exist_ok=True)
+                r2, p2 = run_workers(prop, tier, a.seed, nshards, a.repo, timeout, sub, extra_env={name: val}, only_shards={0, 1})
+                results.extend(r2)
+                problems.extend(p2)
     mons, cells, digests, samples, classes, viol, mech_counts, extra, inconc = merge(results)
     problems.extend(inconc)
 
